@@ -5,6 +5,7 @@ Q = 'theorems on exact rationals, execution on binary32'
 CLAIMED = {
     'C02': (T, 'well-formedness proved at the lexical level of the model reader; expat is the independent oracle', None),
     'C03': (T, 'reader represented by the model read_xml, tied by byte-level correspondence; custom DTD entities outside the model', None),
+    'C04': (T, 'list / points syntax acceptance and the frame property of position rewriting proved; path and transform scanners modelled and compared bit-exactly; tree-preservation oracle over the SVG 1.1 vocabulary (partial: no acceptance theorem for path data, see K8)', None),
     'C05': (T, 'idempotence of blank-line trimming, escaping and read-back proved; attribute re-sort / class re-split identities covered by correspondence only (partial)', None),
     'C09': (T, Q, None),
     'C18': (T, 'independence of instances, first-registration template and specs proved on the pipeline skeleton; translation validation of reuse documents against inlined twins; the instantiation itself (attribute override, placement) is modelled in Model/Leaf.v and not yet under a theorem (partial)', None),
